@@ -97,6 +97,10 @@ def strings_cases():
 
 def set_option_cases():
     opts = [[b'nx'], [b'xx'], [b'get'], [b'keepttl'], [b'ex', b'10'], [b'px', b'10000'], [b'EX', b'0'], [b'px', b'x']]
+    # an option word whose value is missing (last argument)
+    for st in ([], [[b'set', b'k', b'old', b'ex', b'500']], [[b'rpush', b'k', b'a']]):
+        for tail in ([b'ex'], [b'PX'], [b'nx', b'ex'], [b'get', b'px'], [b'ex', b'10', b'px'], [b'keepttl', b'ex'], [b'exat'], [b'ex', b'']):
+            yield Always(st + [[b'set', b'k', b'new'] + tail, [b'get', b'k'], [b'ttl', b'k'], [b'type', b'k']])
     states = [[], [[b'set', b'k', b'old']], [[b'set', b'k', b'old', b'ex', b'500']], [[b'rpush', b'k', b'a']], [[b'sadd', b'k', b'a']]]
     combos = [[]] + [[o] for o in opts] + [[a, b] for a in opts for b in opts if a is not b] + \
              [[a, b, c] for a in opts[:6] for b in opts[:6] for c in opts[:6] if a is not b and b is not c and a is not c]
